@@ -332,7 +332,11 @@ impl Database {
     ) -> Result<MergeLog, MergeError> {
         let mut log = MergeLog::default();
 
-        if let Some(destination_group_location) = self.find_node_location(current_group.uuid) {
+        if current_group.uuid == self.root.uuid {
+            // the root group is not below any group: merge its own fields directly
+            let group_update_merge_events = self.root.merge_with(&current_group)?;
+            log.append(&group_update_merge_events);
+        } else if let Some(destination_group_location) = self.find_node_location(current_group.uuid) {
             let mut destination_group_path = destination_group_location.clone();
             destination_group_path.push(current_group.uuid);
             let destination_group = match self.root.find_group_mut(&destination_group_path) {
